@@ -34,10 +34,10 @@ def main():
         c0 = rp['case']['case']
         # a failure may depend on what the worker process ran before (hidden state): replay the case as a two-step sequence
         # (itself, then itself again) unless it already is a sequence / probe
-        cases = [c0 if c0.get('kind') in ('seq', 'probe', 'nav', 'big', 'bad') else
+        cases = [c0 if c0.get('kind') in ('seq', 'probe', 'nav', 'big', 'bad', 'size') else
                  {'kind': 'seq', 'A': c0['A'], 'steps': [c0, c0], 'gen': 'replay', **({'only': c0['only']} if c0.get('only') else {})}]
     else:      # no replay, or a `no-failing-input-found` replay: run the whole tier
-        cases = [dict(c, only='floyd') for c in dc.gen_dist_cases(ck.rs, ck.tier) if c['kind'] in ('bin', 'wei', 'log', 'flt', 'seq') or (c['kind'] == 'bad' and c.get('what') == 'self-loops')]
+        cases = [dict(c, only='floyd') for c in dc.gen_dist_cases(ck.rs, ck.tier) if c['kind'] in ('bin', 'wei', 'log', 'flt', 'seq', 'size') or (c['kind'] == 'bad' and c.get('what') == 'self-loops')]
         cases += dc.gen_nav_cases(ck.rs, ck.tier)
         npr = 500 if ck.tier == 'thorough' else 50
         pr = ['retrieve', 'navigation_wu', 'floyd_none', 'floyd_inv', 'floyd_log', 'edit_floyd', 'pair_wei_floyd']
@@ -45,6 +45,13 @@ def main():
     if rp is None:
         # interleave: workers must not see the cases grouped by routine / family / size (hidden state carried between calls)
         order = ck.rs.permutation(len(cases)); cases = [cases[i] for i in order]
+        # the few large size-axis cases (seconds each) go to the head of distinct chunks so that they run in parallel from the start
+        bigc = [c for c in cases if c.get('kind') == 'size' and c['spec']['n'] >= 200]
+        rest = [c for c in cases if not (c.get('kind') == 'size' and c['spec']['n'] >= 200)]
+        step = max(1, len(cases) // (16 * 8))
+        for k, c in enumerate(bigc):
+            rest.insert(min(len(rest), k * step), c)
+        cases = rest
     results = pmap(dc.run_case, cases)
     dc.absorb(ck, cases, results, FUNCS)
     dc.timeout_rates(ck)
